@@ -262,6 +262,13 @@ class Lib:
         if ti.kind == 'opq':
             if len(args) == 1 and em.T(qt(args[0])).kind == 'opq':
                 return em.e(args[0])
+        if ti.kind == 'uptr':
+            # unique_ptr(): null; unique_ptr(unique_ptr&&): the pointer changes hands
+            # (the moved-from pointer is left as it was: it is never read again in /repo's uses)
+            if len(args) == 0:
+                return '((%s)0)' % ti.c
+            if len(args) == 1 and em.T(qt(args[0])).kind == 'uptr':
+                return em.e(args[0])
         return None
 
     def _strlit(self, n):
